@@ -8,7 +8,7 @@
    ChaCha8 output and crypto/rand - trusted base), see c09_distinct and c09_orbit. *)
 From Coq Require Import ZArith List Bool.
 From KV.Base Require Import Consts Word.
-From KV.Frame Require Import Wire Frame WireProofs FrameProofs FecProofs FrameExamples.
+From KV.Frame Require Import Wire Frame WireProofs FrameProofs FecProofs SizeProofs FrameExamples.
 Import ListNotations.
 Local Open Scope Z_scope.
 
@@ -201,6 +201,24 @@ Theorem c09_oob_ids :
 Proof. exact encode_oob_ids. Qed.
 Print Assumptions c09_oob_ids.
 
+(* the packet completing a group leaves the encoder at the start of the next group: the p parity
+   ids are consumed whether the parity is emitted (and then sent, or dropped by postProcess since
+   repair ce5cd67 because it no longer fits a lowered MTU) or skipped for discontinuity; and the
+   drop, happening after encode, changes neither the encoder nor the data packet *)
+Theorem c09_parity_ids_consumed :
+  forall rs_encode : Z -> Z -> list bytes -> list bytes,
+    (forall d p shards, length (rs_encode d p shards) = Z.to_nat p) ->
+    (forall (e : fecenc) (g : Z) (x : bytes) (now rto : Z),
+       enc_inv e g -> fe_count e + 1 = fe_d e ->
+       let e1 := fst (fst (fec_encode rs_encode e x now rto)) in
+       fe_next e1 = ((g + 1) * fe_ss e) mod fe_paws e /\ fe_count e1 = 0) /\
+    (forall (wire ov : Z) (fe : option fecenc) (r : req) (now : Z),
+       let '(fe1, b, ps) := stage1 rs_encode fe r now in
+       let '(fe1', b', ps') := stage1w rs_encode wire ov fe r now in
+       fe1' = fe1 /\ b' = b /\ (ps' = ps \/ (ps' = [] /\ 0 < wire))).
+Proof. exact (fun rs H => conj (parity_ids_consumed rs H) (drop_after_encode rs)). Qed.
+Print Assumptions c09_parity_ids_consumed.
+
 (* ---- parity payloads = rs_encode of the group's zero-padded size-prefixed payloads *)
 Theorem c09_parity_is_rs :
   forall rs_encode : Z -> Z -> list bytes -> list bytes,
@@ -237,13 +255,13 @@ Proof. exact ex_fec_ids. Qed.
 (* ---- one fresh nonce per packet: the request's own packet, every parity packet, OOB *)
 Theorem c09_fresh_nonce_each :
   forall (rs_encode : Z -> Z -> list bytes -> list bytes) (K : crypto)
-         (c : cipher) (fe : option fecenc) (r : req) (now : Z) (nonces : list bytes),
-    let '(fe1, b, ps) := stage1 rs_encode fe r now in
+         (c : cipher) (fe : option fecenc) (wire : Z) (r : req) (now : Z) (nonces : list bytes),
+    let '(fe1, b, ps) := stage1w rs_encode wire (aead_extra K c) fe r now in
     let bodies := b :: ps in
     (uses_nonce c = true -> (length bodies <= length nonces)%nat ->
-       pp_step rs_encode K c fe r now nonces =
+       pp_step rs_encode K c fe wire r now nonces =
          (fe1, map (frame_pair K c) (combine nonces bodies), skipn (length bodies) nonces)) /\
-    (c = CNone -> pp_step rs_encode K c fe r now nonces = (fe1, bodies, nonces)).
+    (c = CNone -> pp_step rs_encode K c fe wire r now nonces = (fe1, bodies, nonces)).
 Proof. exact fresh_nonce_each. Qed.
 Print Assumptions c09_fresh_nonce_each.
 
@@ -252,11 +270,11 @@ Print Assumptions c09_fresh_nonce_each.
 Theorem c09_distinct :
   forall (rs_encode : Z -> Z -> list bytes -> list bytes) (K : crypto),
     (forall b, k_dec K (k_enc K b) = b) ->
-    forall (c : cipher) (fe : option fecenc) (rs : list (req * Z)) (nonces : list bytes),
+    forall (c : cipher) (fe : option fecenc) (rs : list (req * Z * Z)) (nonces : list bytes),
       uses_nonce c = true ->
       Forall (fun n => blen n = nonce_len K c) nonces ->
       NoDup nonces ->
-      (length (run_bodies (snd (stage1_run rs_encode fe rs))) <= length nonces)%nat ->
+      (length (run_bodies (snd (stage1w_run rs_encode (aead_extra K c) fe rs))) <= length nonces)%nat ->
       NoDup (snd (pp_run rs_encode K c fe rs nonces)).
 Proof. exact distinct. Qed.
 Print Assumptions c09_distinct.
@@ -265,7 +283,7 @@ Example c09_distinct_example :
   uses_nonce CCrc = true /\
   Forall (fun n => blen n = nonce_len toyK CCrc) (firstn 4 ex_nonces) /\
   NoDup (firstn 4 ex_nonces) /\
-  (length (run_bodies (snd (stage1_run toy_rs ex_fec ex_reqs))) <= length (firstn 4 ex_nonces))%nat /\
+  (length (run_bodies (snd (stage1w_run toy_rs (aead_extra toyK CCrc) ex_fec ex_reqs))) <= length (firstn 4 ex_nonces))%nat /\
   length (snd (pp_run toy_rs toyK CCrc ex_fec ex_reqs (firstn 4 ex_nonces))) = 4%nat.
 Proof. exact ex_distinct_hyps. Qed.
 
